@@ -1,24 +1,38 @@
 from props import P
 
 CFG = P(
-        harness=["harness/C20.cc"], srcs=["Random.cc", "Filesystem.cc", "Strings.cc", "Process.cc", "Time.cc", "Encoding.cc"],
+        harness=["harness/C20.cc", "harness/C20_mat.cc", "harness/C20_vec.cc", "harness/C20_vecw1.cc", "harness/C20_vecw2.cc", "harness/C20_vecw3.cc"],
+        harness_deps=["harness/C20_common.hh", "harness/C20_vec.hh", "harness/C20_vecw.hh"],
+        srcs=["Random.cc", "Filesystem.cc", "Strings.cc", "Process.cc", "Time.cc", "Encoding.cc"],
         ldflags=["-Wl,--wrap=read"],
-        rule="a case is non-trivial when it executes the function under test on a distinct input and decides its defining equation; gcd(0,0) and child reports that could not be parsed are not counted",
-        bounds={"quick": "all sections enumerated completely (see per-section bounds); log2i on 32-bit types: every value up to 2^16 and every 2^k, 2^k+-1",
-                "thorough": "quick bounds plus all 2^32 values for log2i<uint32_t>/<int32_t> and all 1985^2 ordered matrix pairs"},
-        explanation="E-ENUM over the real templates with defining-equation oracles; E-ENV for random_int/random_data: read() is interposed at link time and serves enumerated streams for the /dev/urandom descriptor, every history runs in a child forked from a parent that never touched the static buffer",
+        rule="a case is non-trivial when it executes the function under test on a distinct input (or a distinct history of calls / environment plan) and decides its defining equation; gcd(0,0) and child reports that could not be parsed are not counted",
+        bounds={"quick": "all sections enumerated completely (see per-section bounds): gcd/reduce_fraction on [0,300]^2, the type limits, ALL pairs of the power alphabet {2^k-1,2^k,2^k+1,3*2^k,6*2^k} of every width and 2-/3-call histories; "
+                         "log2i on every value up to 2^16, every 2^k, 2^k+-1, two-bit value, run of ones, byte-lane value and u-v-u histories; random_int on every span 2^k-2..2^k+1 (k<=63) x boundary lo x 8 owned streams; "
+                         "random_data histories of <=3 requests over 13 sizes around the refill boundary, continued after fork, and with the 1st/2nd/3rd read failing or short; Vector2/3/4 over small components (2 types) and boundary "
+                         "components (8 types); Matrix4 products of perturbed identities (4 types, incl. one large entry); inversion of 3^12 + 16 sign patterns x 5 scales x 2049 diagonally dominant matrices and in exception contexts",
+                "thorough": "quick bounds plus all 2^32 values for log2i<uint32_t>/<int32_t>, all 1985^2 ordered matrix pairs, random_data sizes up to 65537, wider Vector3/4 boundary alphabets, inversion scales 2^+-1000 and two more dense 3^12 sweeps"},
+        explanation="E-ENUM over the real templates with defining-equation oracles; E-ENV for random_int/random_data: read() is interposed at link time and serves enumerated streams (and enumerated failures) for the /dev/urandom descriptor, "
+                    "every history runs in a child forked from a parent that never touched the static buffer; pure functions are additionally run in histories of two/three calls with ambient errno owned by the engine; "
+                    "a division trap (SIGFPE) inside gcd/reduce_fraction is caught per call and reported as an outcome",
         assumptions=[
             "gcd/reduce_fraction: non-negative operands only; reduce_fraction(0,0) (division by zero) is not called",
             "log2i: positive arguments only",
             "random_int: hi-lo < 2^63; 'random in [lo,hi]' is read as: result in [lo,hi] for every entropy stream, and for ranges <= 256 every value of [lo,hi] is produced when the consumed bytes run through all 256 values",
-            "random_data: reads on /dev/urandom are served completely (no short reads); the flow of stream positions to output positions does not depend on the byte values (needed to decode positions from three runs)",
+            "random_data: in the sections random_int/random_data reads on /dev/urandom are served completely; the flow of stream positions to output positions does not depend on the byte values (needed to decode positions from three runs, and checked: bytes read and outcomes must agree between streams)",
+            "random_data with a failing or short read (section random_env): whether the affected and later requests throw is not compared; demanded only: no write outside the request, no exception while every read was complete, and a request that returns normally has all its bytes from the stream (re-delivery of bytes after a failed read is not compared)",
             "Vector norm1() is executed but not compared (the statement does not define it; the library returns the plain component sum); str() is not called; division/modulo by a zero scalar is not executed",
+            "Vector operations whose C++ meaning is undefined on the operands (signed overflow in int/int64_t arithmetic, MIN / -1, negation of MIN) are neither executed nor compared; 8/16-bit component types are compared with the language's own rule (computed in int, stored modulo 2^w); unsigned types modulo 2^w; no NaN components (operator< would not be a strict weak order)",
+            "floating-point vectors are compared with the same expression evaluated left to right in the component type (IEEE, no contraction); cross-product orthogonality / Lagrange identity only where the arithmetic is exact (small integers, or 32/64-bit integer types without overflow)",
             "Matrix4 storage convention (m[column][row]) is taken from operator*(Vector4) and confirmed by the matrix*vector check against the textbook product",
-            "matrix inversion: double only, strictly diagonally dominant matrices, tolerance 1e-9",
+            "Matrix4 (op) scalar and += / -= are executed but not compared (outside the statement); matrix entries are chosen so that every product and sum is exactly representable (the library accumulates products in double)",
+            "matrix inversion: double only, strictly diagonally dominant matrices (any sign pattern, any power-of-two scale), tolerance 1e-9; inversion of singular matrices and a second in-place inversion are executed, not compared",
         ],
         engine="E-ENUM + E-ENV",
-        technique="exhaustive enumeration of operand pairs/triples per integer width and vector dimension on the real templates; owned entropy stream behind a link-time wrapped read() with fork-per-history for the function-local static buffer",
-        level_text="Every pair in [0,300]^2 and the type boundaries for eight integer widths (gcd, reduce_fraction), every 8/16-bit value and every power of two +-1 of every width (thorough: all 2^32 values) for log2i, every pair of small-integer Vector2/3/4 and every triple for operator<, every product of up to three elementary matrices and all 3^12 diagonally dominant matrices for inversion are executed on the real code against their defining equations; random_int/random_data run against an enumerated /dev/urandom stream in pristine forked processes.",
-        level_note="Trusted: libstdc++ std::gcd (binary gcd) as the second gcd oracle, the C++ arithmetic operators as the componentwise definition, the textbook matrix product in the harness. Entropy streams are the enumerated ones, not all streams.",
+        technique="exhaustive enumeration of operand pairs/triples and call histories per integer width, component type and vector dimension on the real templates; owned entropy stream (with enumerated read failures) behind a link-time wrapped read() with fork-per-history for the function-local static buffer",
+        level_text="Every pair in [0,300]^2, the type boundaries and all pairs of powers of two +-1 (and 3*2^k, 6*2^k) for ten integer types (gcd, reduce_fraction, also as two- and three-call histories), every 8/16-bit value, every power of two +-1, "
+                   "two-bit value and byte-lane value of every width (thorough: all 2^32 values) for log2i, every pair of small-integer Vector2/3/4 and of boundary-valued vectors over eight component types, every triple for operator<, "
+                   "every product of up to three elementary matrices (four entry types) and all 3^12 + 16 x 5 x 2049 diagonally dominant matrices for inversion are executed on the real code against their defining equations; "
+                   "random_int/random_data run against an enumerated /dev/urandom stream (every span 2^k-2..2^k+1, every <=3-request history over 13 sizes, fork, failing reads) in pristine forked processes.",
+        level_note="Trusted: libstdc++ std::gcd (binary gcd) as the second gcd oracle, the C++ arithmetic operators (with GCC overflow builtins) as the componentwise definition, the textbook matrix product in the harness. Entropy streams are the enumerated ones, not all streams.",
         deadline={"quick": 600, "thorough": 3600},
     )
